@@ -112,5 +112,14 @@ func specs() []*spec {
 			Model:          []string{"consensus (records which peer issued each LogPin/LogUnpin)", "monitors (alert channels driven by the plan; same metric view on every peer)", "tracker, IPFS, informer"},
 			Assumptions:    []string{"members agree on the peerset and on the metric view (given in the statement)", "follower mode is on for all peers or for none"},
 		},
+		{
+			ID: "C16", Harness: "ipfshttpsim", Level: "exploration",
+			Batch: 200, QuickSecs: 25, ThoroughSecs: 420, PlanTimeoutS: 10,
+			RequiredProbes: []string{"already_pinned_as_asked", "pin_update_used", "stalled_pin", "stalled_before_headers", "unpin_absent", "lscid_ok", "pin/add:transport", "pin/add:err_json", "pin/ls:transport", "pin/rm:err_json"},
+			Rule:           "plan = connector timeouts (PinTimeout 1-120 s, UnpinTimeout, IPFSRequestTimeout) + one call drawn systematically from the product {pin recursive|direct|depth|update, unpin, pin-ls} x prior daemon state x behaviour of every HTTP request of the conversation (pin/ls -> [swarm/connect] -> [pin/ls of source -> pin/update] | pin/add with progress): ok, IPFS JSON error, non-JSON error, transport error, no answer, garbage body, and for the progress stream n progress objects at 0-20 s gaps ending in final object | stall | connection drop | clean end with X-Stream-Error trailer; followed by 0-5 random calls over 3 CIDs. A contiguous seed range as long as the product (about 66k) covers the first-call product completely. Non-trivial = >=1 call and >=1 non-ok daemon behaviour fired; distinct = distinct canonical trace digest.",
+			Real:           []string{"ipfsconn/ipfshttp.Connector (Pin, pinProgress + watchdog, pinUpdate, Unpin, PinLsCid, postCtx/checkResponse error mapping)", "net/http client machinery above RoundTrip"},
+			Model:          []string{"scripted in-memory IPFS HTTP daemon installed as http.DefaultTransport (pin table with modes, go-ipfs error strings, go-ipfs-cmds X-Stream-Error trailer); the effect of pin/add lands with the final stream object unless the request was cancelled"},
+			Assumptions:    []string{"swarm/connect to origins is best effort by design and not judged", "the watchdog bound is 2 x PinTimeout + 1 s after the last progress (it ticks once per PinTimeout)", "a daemon that answers 200 to pin/rm or pin/update has performed it"},
+		},
 	}
 }
